@@ -6,6 +6,7 @@ import HcipyVerif.Lemmas.FourierC02
 import HcipyVerif.Lemmas.Mft
 import HcipyVerif.Lemmas.Czt
 import HcipyVerif.Lemmas.Axes
+import HcipyVerif.Lemmas.FftSelect
 
 /-!
 # C01 — every Fourier transform evaluates the same weighted Fourier sum
@@ -237,6 +238,73 @@ theorem d4_reported_sizes_inconsistent (δ : Rat) :
   · have h' : (217 : Rat) / 218 = 1 := by
       rw [← h]; push_cast; field_simp
     norm_num at h'
+
+/-! ### `make_fourier_transform`: method selection (`Model/FftSelect.lean`)
+
+`choose`/`makeFT` follow the decision logic literally (the planner's float comparison is an oracle
+input `fftCheaper`; `numFft` is the numeric part of `get_fft_parameters`, modelled exactly per axis
+by `getFftParameters`).  `detectFix` is the detection after repair D63 (an FFT grid must be
+Cartesian and have the input's number of axes), `detectLit` the code as written. -/
+
+/-- **Preconditions**: whichever detection, whichever way the planner decides — if a constructor
+is reached (and an explicit output grid has the input's number of axes) its checks pass:
+FFT ⇐ input regular Cartesian; MFT ⇐ both separated Cartesian, 1 or 2 axes; NFT ⇐ equal axes. -/
+theorem selection_pre' (detect : GridDesc → GridDesc → Bool → Bool) (i : GridDesc)
+    (o : Option OutReq) (fftCheaper : Bool) (ch : Choice)
+    (hnd : ∀ r, o = some r → r.grid.ndim = i.ndim)
+    (h : choose detect i o fftCheaper = some ch) : ctorPre i o ch :=
+  selection_pre detect i o fftCheaper ch hnd h
+
+/-- **`get_fft_parameters` ∘ `make_fft_grid` round trip**, one axis, exact arithmetic: the
+FastFourierTransform built from the reconstructed `(q, fov, shift)` reports exactly the requested
+axis (same `Mo`, spacing, zero), its value checks pass and its sizes are grid-consistent. -/
+theorem fft_grid_roundtrip' (a : InAxis) (o : OutAxis) (p : FftParams) (z : Rat)
+    (h : getFftParameters a o = some p) :
+    AxisReproduced a z o p ∧ FftValuePre (p.toAxisIn a z) ∧
+      ((plan (p.toAxisIn a z)).M : Rat) = p.q * (a.N : Rat) ∧
+      FftConsistent a.N (plan (p.toAxisIn a z)).M (plan (p.toAxisIn a z)).Mo a.delta
+        (plan (p.toAxisIn a z)).dT :=
+  fft_grid_roundtrip a o p z h
+
+/-- **`selection_sound`** (detection repaired, D63): whenever `make_fourier_transform` returns an
+object, the chosen class's preconditions hold, the object's output grid is the requested grid, and
+where the grid was replaced by reconstructed FFT parameters every axis is reproduced exactly. -/
+theorem selection_sound' (i : GridDesc) (o : Option OutReq) (fftCheaper : Bool) (ch : Choice)
+    (ins : List InAxis) (outs : List OutAxis)
+    (hnum : ∀ r, o = some r → r.numFft = numFftAxes ins outs)
+    (h : makeFT detectFix i o fftCheaper = .ok ch) :
+    ctorPre i o ch ∧ ctorGrid i o ch = requestedDesc i o ∧
+      (∀ r, o = some r → ch.via = .params → AxesReproduced ins outs) :=
+  selection_sound_fix i o fftCheaper ch ins outs hnum h
+
+/-- the code as written is sound on requested grids that are Cartesian when regular and have the
+input's number of axes -/
+theorem selection_sound_current (i : GridDesc) (o : Option OutReq) (fftCheaper : Bool) (ch : Choice)
+    (ins : List InAxis) (outs : List OutAxis)
+    (hreq : ∀ r, o = some r → r.grid.ndim = i.ndim ∧
+      (r.grid.isRegular = true → r.grid.cartesian = true) ∧ r.numFft = numFftAxes ins outs)
+    (h : choose detectLit i o fftCheaper = some ch) :
+    ctorPre i o ch ∧ ctorGrid i o ch = requestedDesc i o ∧
+      (∀ r, o = some r → ch.via = .params → AxesReproduced ins outs) :=
+  selection_sound i o fftCheaper ch ins outs hreq h
+
+/-- D63: a regular polar grid with FFT-grid numbers is answered with a Cartesian grid. -/
+theorem selection_current_counterexample_noncartesian :
+    ∃ (i : GridDesc) (r : OutReq) (c : Bool) (ch : Choice),
+      makeFT detectLit i (some r) c = .ok ch ∧ r.grid.ndim = i.ndim ∧
+        ctorGrid i (some r) ch ≠ requestedDesc i (some r) :=
+  selection_unsound_noncartesian_old
+
+/-- D63: a regular grid with fewer axes is answered with a grid of the input's dimension. -/
+theorem selection_current_counterexample_ndim :
+    ∃ (i : GridDesc) (r : OutReq) (c : Bool) (ch : Choice),
+      makeFT detectLit i (some r) c = .ok ch ∧ r.grid.cartesian = true ∧
+        ctorGrid i (some r) ch ≠ requestedDesc i (some r) :=
+  selection_unsound_ndim_old
+
+/-- Non-vacuity of the round trip: `N = 87`, `M = Mo = 218`. -/
+example : getFftParameters ⟨87, 1 / 4⟩ ⟨218, 2 / 109, 3 / 8, 0⟩
+    = some ⟨218 / 87, 1, 3 / 8 + 2 / 109 * 109, 0⟩ := by decide +kernel
 
 /-! ### Concrete instance: `Complex.exp` -/
 
